@@ -1,7 +1,10 @@
 // driver sub-command: the REAL cln_plugin Builder / PluginDriver in-process on tokio duplex pipes.
 // Input: {"cap": pipe capacity, "requests": [{"id": json, "method": "htlc_accepted"|"block_added"|"unknown", "params": json}, ...],
 //         "chunks": [n1, n2, ...] (sizes of the writes the request stream is split into, cycled),
-//         "complete_order": [i, ...] (order in which the hook handlers are allowed to finish; indices into the hook requests)}
+//         "complete_order": [i, ...] (order in which the hook handlers are allowed to finish; indices into the hook requests),
+//         "logging": bool (the plugin's real tracing->log-notification writer shares the output; ONE such case per process),
+//         "pause_reader": bool (the node stops reading the plugin's stdout while the requests are written, then resumes)}
+//        request params: "log": n (the handler emits an n-byte log line first), "nogate": 1 (the handler finishes at once), "big": n (n extra bytes in the reply)
 // Output: {"handshake_ok": bool, "received": [[id, params]...] (hook invocations in arrival order), "notified": [...],
 //          "frames": [raw frames read back], "bad_frames": n, "trailing": hex}
 use crate::cln_plugin::{Builder, Plugin};
@@ -27,8 +30,11 @@ async fn on_hook(p: Plugin<St>, v: Value) -> Result<Value, anyhow::Error> {
         let g = st.gates.lock().unwrap().get_mut(idx).and_then(|g| g.take());
         (idx, g)
     };
-    if let Some(g) = gate { let _ = g.await; }
+    if let Some(n) = v.get("log").and_then(|x| x.as_u64()) { tracing::info!("L{}:{}", v.get("tag").and_then(|t| t.as_u64()).unwrap_or(999), "x".repeat(n as usize)); }
+    if v.get("nogate").is_none() { if let Some(g) = gate { let _ = g.await; } }
     if v.get("fail").is_some() { return Err(anyhow::anyhow!("handler error {}", idx)); }
+    let big = v.get("big").and_then(|x| x.as_u64()).unwrap_or(0) as usize;
+    if big > 0 { return Ok(json!({"result": "continue", "echo": v.get("tag").cloned().unwrap_or(Value::Null), "pad": "y".repeat(big)})); }
     Ok(json!({"result": "continue", "echo": v.get("tag").cloned().unwrap_or(Value::Null)}))
 }
 
@@ -55,6 +61,9 @@ pub fn run() {
         let reqs = case["requests"].as_array().unwrap().clone();
         let chunks: Vec<usize> = case["chunks"].as_array().map(|a| a.iter().map(|x| x.as_u64().unwrap() as usize).collect()).unwrap_or(vec![1000]);
         let order: Vec<usize> = case["complete_order"].as_array().map(|a| a.iter().map(|x| x.as_u64().unwrap() as usize).collect()).unwrap_or_default();
+        let logging = case["logging"].as_bool().unwrap_or(false);
+        let pause = case["pause_reader"].as_bool().unwrap_or(false);
+        if logging { std::env::set_var("CLN_PLUGIN_LOG", "info"); }
         let nhooks = reqs.iter().filter(|r| r["method"] == "htlc_accepted" && r.get("id").is_some()).count();
         let rt = tokio::runtime::Builder::new_current_thread().enable_all().build().unwrap();
         let out = rt.block_on(async move {
@@ -64,13 +73,18 @@ pub fn run() {
             let mut gates = vec![];
             for _ in 0..nhooks { let (tx, rx) = oneshot::channel(); senders.push(Some(tx)); gates.push(Some(rx)); }
             let st = St { received: Arc::new(Mutex::new(vec![])), notified: Arc::new(Mutex::new(vec![])), gates: Arc::new(Mutex::new(gates)) };
-            let builder = Builder::new(plugin_in, plugin_out).hook("htlc_accepted", on_hook).subscribe("block_added", on_note).with_logging(false);
+            let builder = Builder::new(plugin_in, plugin_out).hook("htlc_accepted", on_hook).subscribe("block_added", on_note).with_logging(logging);
             // reader task: collects everything the plugin writes
             let collected: Arc<Mutex<Vec<u8>>> = Arc::new(Mutex::new(vec![]));
             let c2 = collected.clone();
+            let paused = Arc::new(std::sync::atomic::AtomicBool::new(false));
+            let paused2 = paused.clone();
             let reader = tokio::spawn(async move {
                 let mut b = [0u8; 37];
-                loop { match host_r.read(&mut b).await { Ok(0) | Err(_) => break, Ok(n) => c2.lock().unwrap().extend_from_slice(&b[..n]) } }
+                loop {
+                    while paused2.load(std::sync::atomic::Ordering::SeqCst) { tokio::time::sleep(std::time::Duration::from_millis(1)).await; }
+                    match host_r.read(&mut b).await { Ok(0) | Err(_) => break, Ok(n) => c2.lock().unwrap().extend_from_slice(&b[..n]) }
+                }
             });
             let st2 = st.clone();
             let plugin_task = tokio::spawn(async move { builder.start(st2).await.map(|p| p.is_some()).unwrap_or(false) });
@@ -90,14 +104,21 @@ pub fn run() {
                 stream.extend_from_slice(m.to_string().as_bytes());
                 stream.extend_from_slice(b"\n\n");
             }
-            let mut pos = 0; let mut k = 0;
-            while pos < stream.len() {
-                let n = chunks[k % chunks.len()].max(1).min(stream.len() - pos); k += 1;
-                host_w.write_all(&stream[pos..pos + n]).await.unwrap();
-                host_w.flush().await.unwrap();
-                pos += n;
-                tokio::task::yield_now().await;
-            }
+            // (when the node is not reading the plugin's output the plugin may stop reading its input: write from a task, resume reading after a while)
+            if pause { paused.store(true, std::sync::atomic::Ordering::SeqCst); tokio::time::sleep(std::time::Duration::from_millis(3)).await; }
+            let writer = tokio::spawn(async move {
+                let mut pos = 0; let mut k = 0;
+                while pos < stream.len() {
+                    let n = chunks[k % chunks.len()].max(1).min(stream.len() - pos); k += 1;
+                    if host_w.write_all(&stream[pos..pos + n]).await.is_err() { break; }
+                    let _ = host_w.flush().await;
+                    pos += n;
+                    for _ in 0..(if pause { 30 } else { 1 }) { tokio::task::yield_now().await; }
+                }
+                host_w
+            });
+            if pause { tokio::time::sleep(std::time::Duration::from_millis(30)).await; paused.store(false, std::sync::atomic::Ordering::SeqCst); }
+            let host_w = writer.await.unwrap();
             // wait until every hook request has reached its handler (or a timeout: the driver may have stopped)
             for _ in 0..400 {
                 if st.received.lock().unwrap().len() >= nhooks { break; }
@@ -112,7 +133,13 @@ pub fn run() {
             for s in senders.iter_mut() { if let Some(tx) = s.take() { let _ = tx.send(()); } }
             tokio::time::sleep(std::time::Duration::from_millis(40)).await;
             drop(host_w);
-            tokio::time::sleep(std::time::Duration::from_millis(10)).await;
+            // read until the plugin has been quiet for a while (with the log writer alive the output never reaches EOF)
+            let mut last = usize::MAX; let mut quiet = 0;
+            for _ in 0..400 {
+                tokio::time::sleep(std::time::Duration::from_millis(5)).await;
+                let l = collected.lock().unwrap().len();
+                if l == last { quiet += 1; if quiet >= 6 { break; } } else { quiet = 0; last = l; }
+            }
             reader.abort();
             let buf = collected.lock().unwrap().clone();
             let (frames, trailing) = split_frames(&buf);
